@@ -361,8 +361,12 @@ package fs
 //@   ensures each_once: tm != nil && result == nil ==> cnt(Utimes) == old(cnt(Utimes)) + len(dirs)
 //@   ensures nofollow: cnt(Utimes) > old(cnt(Utimes)) ==> arg(Utimes, 5) == unix.AT_SYMLINK_NOFOLLOW
 
+// the pattern lists reach the matchers as the caller gave them: same patterns, same order, none
+// dropped, rewritten or merged (order and repetition matter: later patterns override earlier ones)
 //@ func newCopier
 //@   property C13 C16
+//@   at call patternmatcher.New#0: include_patterns_as_given: len(arg0) == len(includePatterns) && (forall k int :: {arg0[k]} 0 <= k && k < len(includePatterns) ==> arg0[k] == includePatterns[k])
+//@   at call patternmatcher.New#1: exclude_patterns_as_given: len(arg0) == len(excludePatterns) && (forall k int :: {arg0[k]} 0 <= k && k < len(excludePatterns) ==> arg0[k] == excludePatterns[k])
 //@   ensures result1 == nil ==> result0 != nil && fresh(result0) && result0.inodes != nil && len(result0.parentDirs) == 0 && result0.root == root && result0.chown == chown && result0.utime == tm && result0.mode == mode && result0.modeSet == modeSet && result0.alwaysReplaceExistingDestPaths == alwaysReplaceExistingDestPaths && result0.changefn == changeFunc
 
 // The entry point. A destination whose last element is empty or "." (trailing
